@@ -248,6 +248,19 @@ def emitLimited (m : Message) (limit : Nat) : Outcome Bytes :=
 
 def toVec (m : Message) : Outcome Bytes := emitLimited m 65535
 
+/-! ## class predicates of the two known by-design deviations of C02 -/
+
+/-- C02.BadVersBadSigAlias : the response code is 16, which is BADVERS (RFC 6891) and BADSIG
+(RFC 2845) at once; `ResponseCode::from` decodes it as BADSIG -/
+def BadVersAlias (m : Message) : Bool := m.md.rcode == 16
+
+/-- C02.ReencodeExceeds64K : `to_vec` of a message without TC comes back with TC, i.e. records were
+dropped at the 65 535-octet limit -/
+def ReencodeTruncates (m : Message) : Bool :=
+  match emitMessage m ((Enc.new []).setMaxSize 65535) with
+  | .ok (md', _) _ => md'.tc && !m.md.tc
+  | _ => false
+
 /-! ## the server's response encoder -/
 
 /-- `QueriesEmitAndCount::emit` : the question bytes as the client sent them, remembered as one
